@@ -31,10 +31,28 @@ func init() {
 				}},
 			{ID: "C05.e", Title: "READ-YOUR-WRITES", Template: "T5", MinInst: 3,
 				Rule: "PRAGMA synchronous = FULL is executed on the connection stored in the backend; DynamoDB GetItem sets ConsistentRead true; the ETag GetObject sends no-cache and the CAS read header", Run: c05e},
+			{ID: "C05.g", Title: "CAS-FAIL-IS-ERROR", Template: "T8", MinInst: 6,
+				Rule: "in Replace/Create of every implementer, with the success edge of the conditional write cut, every reachable return carries a certainly non-nil error (or the write's own error): a failed precondition is never turned into success",
+				Run:  c05g},
 			{ID: "C05.f", Title: "NIL-IS-EMPTY", Template: "T2", MinInst: 2,
 				Rule: "in SQLite Replace/Create the statement is reachable only with new known non-nil or after new was replaced by an empty slice", Run: c05f},
 		},
 	})
+}
+
+// sqlWrites returns the mutating SQL statements of f (SELECT / PRAGMA are not writes).
+func sqlWrites(f *Func) (sites []Site, queries []string) {
+	ss, qs := sqlCalls(f)
+	for i, q := range qs {
+		kind, _ := sqlInfo(q)
+		switch kind {
+		case "SELECT", "PRAGMA", "EXPLAIN":
+			continue
+		}
+		sites = append(sites, ss[i])
+		queries = append(queries, q)
+	}
+	return
 }
 
 // lockBackendImpls returns the named types of the module implementing
@@ -100,15 +118,29 @@ func c05a(c *Ctx) {
 		}
 		c.touch(f)
 		found := ""
-		for _, r := range f.Returns() {
-			e := f.errResultExpr(r.X.(*ast.ReturnStmt))
-			if e == nil {
-				continue
-			}
-			if isPkgVar(f.Info(), e, pkgCtlog, "ErrLogNotFound") || f.wrapsVar(e, pkgCtlog, "ErrLogNotFound") {
-				found = r.Pos()
+		// Fetch itself, or a same-package helper it returns the result of (depth <= 2)
+		var scan func(x *Func, depth int)
+		scan = func(x *Func, depth int) {
+			for _, r := range x.Returns() {
+				ret := r.X.(*ast.ReturnStmt)
+				if e := x.errResultExpr(ret); e != nil {
+					if isPkgVar(x.Info(), e, pkgCtlog, "ErrLogNotFound") || x.wrapsVar(e, pkgCtlog, "ErrLogNotFound") {
+						found = r.Pos()
+					}
+				}
+				if len(ret.Results) == 1 && depth < 2 {
+					if call, ok := ast.Unparen(ret.Results[0]).(*ast.CallExpr); ok {
+						if fn, ok := calleeObj(x.Info(), call).(*types.Func); ok {
+							if h := c.P.FuncOf(fn); h != nil && h.Pkg == x.Pkg {
+								c.touch(h)
+								scan(h, depth+1)
+							}
+						}
+					}
+				}
 			}
 		}
+		scan(f, 0)
 		if found != "" {
 			c.OK(inst, "has a return of ErrLogNotFound", []string{found})
 		} else {
@@ -253,13 +285,13 @@ func c05b(c *Ctx) {
 			}
 			c.touch(f)
 			info := f.Info()
-			sites, qs := sqlCalls(f)
+			sites, qs := sqlWrites(f)
 			puts := f.Calls(Callee{pkgDynamo, "Client", "PutItem"})
 			objs := f.Calls(Callee{pkgS3, "Client", "PutObject"})
 			switch {
 			case len(sites) > 0:
 				if len(sites) != 1 {
-					c.Unk(inst, "more than one SQL statement")
+					c.Unk(inst, "more than one writing SQL statement")
 					continue
 				}
 				_, toks := sqlInfo(qs[0])
@@ -363,7 +395,7 @@ func c05c(c *Ctx) {
 			return objOf(info, e) == newP
 		}
 		var problems []string
-		sites, _ := sqlCalls(f)
+		sites, _ := sqlWrites(f)
 		puts := f.Calls(Callee{pkgDynamo, "Client", "PutItem"})
 		objs := f.Calls(Callee{pkgS3, "Client", "PutObject"})
 		tokenField, keyField := "", ""
@@ -551,6 +583,12 @@ func c05e(c *Ctx) {
 		if f == nil {
 			continue
 		}
+		// the read may live in a same-package helper that Fetch delegates to
+		for _, h := range reachableFuncs(f) {
+			if h != f && h.Pkg == f.Pkg && (len(h.Calls(Callee{pkgDynamo, "Client", "GetItem"})) > 0 || len(h.Calls(Callee{pkgS3, "Client", "GetObject"})) > 0) {
+				f = h
+			}
+		}
 		info := f.Info()
 		if gets := f.Calls(Callee{pkgDynamo, "Client", "GetItem"}); len(gets) > 0 {
 			inst := li.name + ".Fetch consistent read"
@@ -619,6 +657,68 @@ func c05f(c *Ctx) {
 				c.Bad(inst, sites[0].Pos(), "a nil value can reach the statement: SQLite binds it as NULL, which never compares equal, so the next Replace of that value would fail")
 			} else {
 				c.add(Result{Instance: inst, Verdict: Discharged, Sites: sitePositions(sites), Detail: "statement reachable only with new != nil or after new = []byte{}", Witnesses: f.WitEdges(nonNil)})
+			}
+		}
+	}
+}
+
+func c05g(c *Ctx) {
+	for _, li := range lockBackendImpls(c.P) {
+		for _, m := range []struct {
+			name string
+			f    *Func
+		}{{"Replace", li.replace}, {"Create", li.create}} {
+			f := m.f
+			inst := li.name + "." + m.name + " failed write is an error"
+			if f == nil {
+				c.Unk(inst, "method body not found")
+				continue
+			}
+			c.touch(f)
+			info := f.Info()
+			g := f.Graph()
+			var writes []Site
+			sites, _ := sqlWrites(f)
+			writes = append(writes, sites...)
+			writes = append(writes, f.Calls(Callee{pkgDynamo, "Client", "PutItem"})...)
+			writes = append(writes, f.Calls(Callee{pkgS3, "Client", "PutObject"})...)
+			if len(writes) != 1 {
+				c.Unk(inst, fmt.Sprintf("expected exactly one conditional write, found %d", len(writes)))
+				continue
+			}
+			w := writes[0]
+			errObj, bound := resultVar(w, isErrorType)
+			nilE, _, _, tested := OutcomeEdges(w)
+			if !bound {
+				c.Bad(inst, w.Pos(), "the error of the conditional write is not bound")
+				continue
+			}
+			if !tested {
+				// `return err` directly: every return must be that variable
+				ok := true
+				for _, r := range g.ReturnsFrom(w.After(), Cut{}) {
+					if e := f.errResultExpr(r); e == nil || objOf(info, e) != errObj {
+						ok = false
+					}
+				}
+				if ok {
+					c.OK(inst, "the write's error is returned as is", []string{w.Pos()})
+				} else {
+					c.Bad(inst, w.Pos(), "the error of the conditional write is neither tested nor returned")
+				}
+				continue
+			}
+			bad := false
+			rets := g.ReturnsFrom(w.After(), Cut{Edges: nilE})
+			for _, r := range rets {
+				e := f.errResultExpr(r)
+				if e == nil || (f.mayBeNilError(e) && objOf(info, e) != errObj) {
+					c.Bad(inst, f.Pos(r), "after the conditional write failed (precondition not met or outcome unknown) "+m.name+" can still report success: two writers could both believe they replaced the same predecessor")
+					bad = true
+				}
+			}
+			if !bad {
+				c.add(Result{Instance: inst, Verdict: Discharged, Evals: len(rets), Sites: []string{w.Pos()}, Detail: fmt.Sprintf("%d return(s) reachable without the write's success edge, all errors", len(rets)), Witnesses: f.WitEdges(necessaryEdges(g, w.After(), nilE, successReturns(f), Cut{}))})
 			}
 		}
 	}
